@@ -10,7 +10,7 @@ ID = "C10"
 LEVEL = "fault_enumeration"
 RULE = ("valid delimited streams (2-30 frames; written by pyjelly and by the reference producer) are cut at EVERY byte offset "
         "0..len and each prefix is parsed with parse_jelly_flat of both integrations (parse_jelly_grouped too in thorough), from a "
-        "BytesIO and from one non-seekable source per cut (raw, raw one byte at a time, buffered; each reports end-of-file after the "
+        "BytesIO and from one other source per cut (a real file on disk; non-seekable raw, raw one byte at a time, buffered - each reports end-of-file after the "
         "cut and trips a logical-step guard if the parser polls it 2000 times at end-of-file). "
         "With S the full event list and F(k) the events of the frames lying wholly inside the first k bytes, the yielded list "
         "Y must satisfy Y == S[:len(Y)] and len(Y) >= len(F(k)), followed by normal end or an Exception. Non-trivial: cuts "
@@ -23,7 +23,7 @@ ASSUMPTIONS = [
 ANCHORS = ["pyjelly/parse/ioutils.py", "pyjelly/parse/decode.py", "pyjelly/integrations/generic/parse.py",
            "pyjelly/integrations/rdflib/parse.py"]
 MARKERS = {"frame-iterator": ("pyjelly/parse/ioutils.py", r"while frame := parse_length_prefixed")}
-REQUIRED_OBSERVED = ["cuts-judged", "cut-source:raw-nonseekable", "cut-source:buffered-nonseekable", "cut:inside-length-varint", "cut:on-frame-boundary", "cut:inside-entry-row"]
+REQUIRED_OBSERVED = ["cuts-judged", "cut-source:raw-nonseekable", "cut-source:buffered-nonseekable", "cut-source:file-on-disk", "cut:inside-length-varint", "cut:on-frame-boundary", "cut:inside-entry-row"]
 MIN_NONTRIVIAL = 100
 MANIFEST = {
     "category": "fault_enumeration",
@@ -60,7 +60,20 @@ def classify_cut(k: int, frames: list, data: bytes) -> str:
     return "other"
 
 
-SOURCES = ["bytesio", "raw-nonseekable", "raw-nonseekable-1", "buffered-nonseekable", "buffered-nonseekable-dribble"]
+SOURCES = ["bytesio", "raw-nonseekable", "raw-nonseekable-1", "buffered-nonseekable", "buffered-nonseekable-dribble", "file-on-disk"]
+_TMP: list = []
+
+
+def _tmpfile() -> str:
+    import atexit
+    import os
+    import tempfile
+    if not _TMP:
+        fd, path = tempfile.mkstemp(prefix="rv-c10-", suffix=".jelly")
+        os.close(fd)
+        _TMP.append(path)
+        atexit.register(lambda: os.path.exists(path) and os.unlink(path))
+    return _TMP[0]
 
 
 def cut_source(src: str, prefix: bytes):
@@ -75,6 +88,12 @@ def cut_source(src: str, prefix: bytes):
         return sources.SpinGuardRaw(prefix, [1])
     if src == "buffered-nonseekable":
         return io.BufferedReader(sources.SpinGuardRaw(prefix, [7, 1 << 20]))
+    if src == "file-on-disk":
+        # what a crashed producer leaves behind: a real file (fstat, seek and all) that simply ends after the cut
+        path = _tmpfile()
+        with open(path, "wb") as f:
+            f.write(prefix)
+        return open(path, "rb")
     if src == "buffered-nonseekable-dribble":
         return io.BufferedReader(sources.SpinGuardRaw(prefix, [2, 5]))
     raise ValueError(src)
@@ -83,11 +102,14 @@ def cut_source(src: str, prefix: bytes):
 def judge_cut(integ: str, entry: str, data: bytes, k: int, S: list, complete_before: int, src: str = "bytesio"):
     """-> witness or None"""
     if entry == "flat":
+        inp = cut_source(src, data[:k])
         try:
-            got, exc = pj.run_flat_collect(integ, cut_source(src, data[:k]))
+            got, exc = pj.run_flat_collect(integ, inp)
         except sources.EOFSpin as spin:
             return {"clause": "spins-at-end-of-input", "source": src,
                     "summary": f"{integ}:{entry} cut at {k} supplied as {src}: {spin} (neither ends nor raises)"}
+        finally:
+            inp.close()
         Y = T.norm_events(got)
     else:
         Y = []
